@@ -1,0 +1,45 @@
+//go:build verif && vectors
+// +build verif,vectors
+
+package zap
+
+import "time"
+
+// Verification hooks for the vector index cache (build tags `verif` and
+// `vectors`): make cache expiry an explicit, synchronous event.
+
+func verifVecCache(s interface{}) *vectorIndexCache {
+	switch x := s.(type) {
+	case *Segment:
+		return x.vecIndexCache
+	case *SegmentBase:
+		return x.vecIndexCache
+	}
+	return nil
+}
+
+// VerifVecCacheExpire runs one expiry pass of the segment's vector index
+// cache (what the monitor goroutine does on every tick) and reports whether
+// the cache is empty afterwards.
+func VerifVecCacheExpire(s interface{}) (empty bool, ok bool) {
+	vc := verifVecCache(s)
+	if vc == nil {
+		return false, false
+	}
+	return vc.cleanup(), true
+}
+
+// VerifVecCacheLen returns the number of cached vector indexes of a segment.
+func VerifVecCacheLen(s interface{}) int {
+	vc := verifVecCache(s)
+	if vc == nil {
+		return -1
+	}
+	vc.m.RLock()
+	defer vc.m.RUnlock()
+	return len(vc.cache)
+}
+
+// VerifSetVecMonitorFreq sets the period of the cache monitor goroutine.
+// Only call while no segment is in use.
+func VerifSetVecMonitorFreq(d time.Duration) { monitorFreq = d }
